@@ -182,7 +182,8 @@ def run(ctx):
         ctx.correspondence("debug", IMPORTS, cases, lambda p: p)
 
         # ------------------------------------------------ monitor
-        sites = ["construct", "before", "endpoint", "status", "after"]
+        sites = ["construct", "construct-json", "before", "endpoint", "status",
+                 "after"]
         methods = ["GET", "HEAD", "POST", "PUT", "DELETE", "PATCH",
                    "OPTIONS", "TRACE", "CONNECT"]
         combos = list(itertools.product((None, True, False), OVERRIDES,
@@ -235,6 +236,11 @@ def run(ctx):
             kw = {}
             if site == "construct":
                 kw = {"content_length": TOKEN}
+            elif site == "construct-json":
+                # the decoding error names the charset: unknown encoding TOKEN
+                method = "POST"
+                kw = {"body": b'{"a": 1}',
+                      "content_type": "application/json; charset=" + TOKEN}
             ans = call(build(), env_for("/boom", **kw))
             os.environ.pop("poor_Debug", None)
             body = ans.body or b""
@@ -258,19 +264,32 @@ def run(ctx):
             if eff and ans.code == 500 and TOKEN.encode() not in body \
                     and method != "HEAD":
                 ctx.violation("debug-on-hides-traceback", detail)
-            # /debug-info versus an unknown path, and a directory
-            a_dbg = call(build(), env_for("/debug-info"))
-            a_unk = call(build(), env_for("/no-such-path-xyz"))
-            os.environ.pop("poor_Debug", None)
-            if site not in ("before", "after"):
-                if not eff and (a_dbg.code != a_unk.code or
-                                b"Poor Wsgi Debug" in (a_dbg.body or b"")):
+            # /debug-info versus an unknown path, with and without a
+            # document root (two dispatch sites), and a directory
+            for with_root in (False, True):
+                apps = [build(), build()]
+                if with_root:
+                    for app in apps:
+                        app.document_root = os.path.join(tmp, "root")
+                m2 = method if not with_root else rng.choice(["GET", "HEAD"])
+                env_a, env_b = env_for("/debug-info"), \
+                    env_for("/no-such-path-xyz")
+                env_a["REQUEST_METHOD"] = env_b["REQUEST_METHOD"] = m2
+                r_dbg = call(apps[0], env_a)
+                r_unk = call(apps[1], env_b)
+                os.environ.pop("poor_Debug", None)
+                if site in ("before", "after"):
+                    continue
+                if not eff and (r_dbg.code != r_unk.code or
+                                b"Poor Wsgi Debug" in (r_dbg.body or b"")):
                     ctx.violation("debug-info-reachable-with-debug-off",
-                                  dict(detail, debug_info=a_dbg.status,
-                                       unknown=a_unk.status))
-                if eff and a_dbg.code != 200:
+                                  dict(detail, document_root=with_root,
+                                       method2=m2, debug_info=r_dbg.status,
+                                       unknown=r_unk.status))
+                if eff and r_dbg.code != 200:
                     ctx.violation("debug-info-unreachable-with-debug-on",
-                                  dict(detail, debug_info=a_dbg.status))
+                                  dict(detail, document_root=with_root,
+                                       debug_info=r_dbg.status))
             app = build()
             app.document_root = os.path.join(tmp, "root")
             app.document_index = True
@@ -293,8 +312,9 @@ def run(ctx):
         "model from the literal chunks of the current results.py for debug "
         "on/off; monitor: failures carrying a secret token at {request "
         "construction, before hook, endpoint, status handler, after hook} x "
-        "the same flag grid x methods, /debug-info vs unknown path, "
-        "directory listing" % len(OVERRIDES),
+        "the same flag grid x methods (the construction failure also "
+        "through an unknown JSON charset carrying the token), /debug-info vs "
+        "unknown path with and without a document root, directory listing" % len(OVERRIDES),
         assumptions=["str.lower() is modelled for ASCII letters",
                      "literal text of the 500 page is a parameter of the "
                      "theorem and is taken from the source on every run"])
